@@ -121,10 +121,16 @@ def flat(order):
     return [c[0] for c in order]
 
 
-def ordinal_case(rng, m=None, n=None, kind=None, max_mult=4, style=None, tie_p=0.4):
+def ordinal_case(rng, m=None, n=None, kind=None, max_mult=4, style=None, tie_p=0.4, allow_big=True):
     """A well-formed ordinal instance as a JSON-able dict {type, alts, profile}."""
     m = m or rng.randint(2, 6)
     n = n or rng.randint(1, 6)
+    if allow_big and m > 1 and rng.random() < 0.08:
+        # sizes past every single-digit boundary: two-digit numbers of alternatives and of distinct orders,
+        # multiplicities far beyond the number of orders
+        m = rng.randint(9, 14)
+        n = rng.randint(7, 25)
+        max_mult = rng.choice([max_mult, 100, 1000])      # (the specifications are evaluated voter by voter)
     kind = kind or rng.choice(["soc", "soi", "toc", "toi"])
     alts = alt_ids(rng, m, style)
     alts_store = perm(rng, alts) if rng.random() < 0.3 else alts
